@@ -17,6 +17,13 @@ from vlib.runner import Sub, Violation
 def rt_cases(draw, tier):
     big = tier == 'thorough'
     # mostly small, now and then long texts (dozens to hundreds of lines): whatever is done per block of lines shows there
+    if draw(st.integers(0, 39)) == 0:
+        # texts of a thousand lines and more (programmatic body, see props/c05.long_netlist)
+        from props.c05 import long_netlist
+        nl = long_netlist(draw(st.integers(1, 3)), draw(st.sampled_from([1019, 1021, 1024, 1030, 1100, 2060, 3100])),
+                          draw(st.integers(0, 2 ** 32)), draw(st.sampled_from([0.5, 0.05])))
+        return {'nl': nl, 'route': draw(gen.routes(nl, allow_bench=False)), 'via_file': draw(st.integers(0, 2)) == 0,
+                'same_path': draw(st.booleans())}
     long_ = draw(st.integers(0, 11)) == 0
     nl = draw(gen.netlists(empty_label=False, min_inputs=0, max_inputs=6 if big else 5,
                            min_gates=draw(st.sampled_from([33, 40, 65, 70, 100, 130])) if long_ else 0,
@@ -104,7 +111,7 @@ def check_roundtrip(case):
     else:
         parsed = core.Circuit.from_bench_string(text)
     if not (parsed == c):
-        raise Violation('roundtrip', f'parse(format(c)) != c\n--- text ---\n{text}\n--- parsed ---\n{build.bench_text(refsem.from_circuit(parsed))}')
+        raise Violation('roundtrip', f'parse(format(c)) != c\n--- text ---\n{text[:4000]}\n--- parsed ---\n{build.bench_text(refsem.from_circuit(parsed))[:4000]}')
     if list(parsed.inputs) != list(c.inputs) or list(parsed.outputs) != list(c.outputs):
         raise Violation('roundtrip_order', 'input / output order changed')
     for lab, g in c.gates.items():
@@ -120,6 +127,8 @@ def check_roundtrip(case):
         cls.add('via_file_same_path' if case.get('same_path') else 'via_file')
     if sum(1 for g in nl['gates'] if g[1] != 'INPUT') > 64:
         cls.add('long_text_via_file' if case['via_file'] else 'long_text')
+    if len(text.splitlines()) > 1024:
+        cls.add('lines>1024')
     if after_refusal:
         cls.add('after_refused_parse')
     if fixed_first:
@@ -265,13 +274,13 @@ SPEC = {
              'of INPUT/OUTPUT/operator names, BUFF/IFF, vdd alias, spaces around = , ( ), comment and blank lines, with or '
              'without final newline): parsed gate map, input order, output order and truth table equal the netlist the '
              'text was printed from. Non-trivial: keyword-prefixed label, use before definition or an alias present.'
-             ' Added during the build: labels that ARE a keyword or operator name, texts of 33-260 gates, n-ary gates with up to 13 operands, a text the parser has to refuse before the ordinary one, circuits whose inputs were fixed before writing, one file name overwritten again and again, the parser object fed line by line.'),
+             ' Added during the build: labels that ARE a keyword or operator name, texts of 33-260 gates and of 1000-3100 lines, n-ary gates with up to 13 operands, a text the parser has to refuse before the ordinary one, circuits whose inputs were fixed before writing, one file name overwritten again and again, the parser object fed line by line.'),
     'assumptions': ['only layout constructs the parser documents or its tests use are generated (no tabs, no leading blanks, no trailing comments)'],
     'subs': [Sub('roundtrip', rt_cases, check_roundtrip, {'quick': 2500, 'thorough': 200000}),
              Sub('layout', layout_cases, check_layout, {'quick': 2500, 'thorough': 200000})],
     'required_classes': {'roundtrip': ['kw_input_on_gate', 'kw_output_on_gate', 'kw_input_on_input', 'kw_on_output',
                                        'route:rename', 'via_file', 'via_file_same_path', 'nary>=3', 'constant',
-                                       'long_text', 'long_text_via_file', 'after_refused_parse', 'inputs_fixed_before'],
+                                       'long_text', 'long_text_via_file', 'after_refused_parse', 'inputs_fixed_before', 'lines>1024'],
                          'layout': ['use_before_definition', 'alias_buff', 'alias_vdd', 'comment', 'kw_input_on_gate',
                                     'entry:string', 'entry:file', 'entry:parser_lines', 'entry:parser_stripped']},
 }
